@@ -117,6 +117,7 @@ func runClean(sc *Scenario) ([]rec.Event, Result) {
 	r := &Recorder{}
 	st := Setup(sc, r)
 	res := RunSession(sc, st, r, nil, nil)
+	Cleanup(st)
 	return r.Events(), res
 }
 
@@ -242,4 +243,421 @@ func MainC01(args []string) int {
 	}
 	fmt.Printf("{\"traces\":%d,\"distinct\":%d,\"nontrivial\":%d,\"moved\":%d}\n", len(jobs), len(keys), nontrivial, moved)
 	return 0
+}
+
+// ---------------------------------------------------------------------------------------------
+// C02: link cuts at every byte position, storage failures, sequences of faulty sessions + a clean one.
+
+func cloneScenario(sc *Scenario) *Scenario {
+	b, _ := json.Marshal(sc)
+	c := &Scenario{}
+	json.Unmarshal(b, c)
+	return c
+}
+
+// runSequence runs the given faults as consecutive sessions on the same two mailboxes, followed by a clean session.
+func runSequence(base *Scenario, faults []*Fault) ([]rec.Event, bool) {
+	r := &Recorder{}
+	st := Setup(base, r)
+	hung := false
+	for i, f := range append(faults, nil) {
+		sc := cloneScenario(base)
+		sc.ID = base.ID*16 + i
+		sc.Fault = f
+		if f != nil && f.Kind == "cut" {
+			// the link dies: segmentation as in the base scenario; the scheduler policy stays
+		}
+		res := RunSession(sc, st, r, nil, nil)
+		if res.TimedOut {
+			hung = true
+			break
+		}
+	}
+	r.Add(rec.Event{"op": "EndAll"})
+	Cleanup(st)
+	return r.Events(), hung
+}
+
+func c02Cores(rng *rand.Rand) []*Scenario {
+	var out []*Scenario
+	mk := func(nA, nB int, pol map[string]int, master, sched, seg string) {
+		sc := GenScenario(rng, len(out)+1, nA, nB, pol, false)
+		sc.Master, sc.Sched, sc.Seg = master, sched, seg
+		sc.Motd = nil
+		for _, side := range []string{"A", "B"} {
+			for i := range sc.Msgs[side] {
+				if sc.Msgs[side][i].Size == "medium" {
+					sc.Msgs[side][i].Size = "small"
+				}
+				sc.Msgs[side][i].Att = 0
+			}
+		}
+		out = append(out, sc)
+	}
+	dd := map[string]int{"dedup": 1}
+	mk(1, 0, dd, "B", "free", "all")
+	mk(1, 0, dd, "A", "afirst", "all")
+	mk(2, 1, map[string]int{"dedup": 4, "=": 1, "-": 1}, "A", "free", "rand")
+	mk(2, 1, dd, "B", "bfirst", "all")
+	mk(6, 0, dd, "B", "free", "all")
+	// the real directory mailbox on both sides (P2P routing needs sole recipients)
+	for _, c := range [][2]int{{1, 1}, {2, 0}} {
+		mk(c[0], c[1], dd, "A", "free", "all")
+		sc := out[len(out)-1]
+		sc.Handler = "dir"
+		for _, side := range []string{"A", "B"} {
+			for i := range sc.Msgs[side] {
+				sc.Msgs[side][i].Sole = true
+			}
+		}
+	}
+	return out
+}
+
+// MainC02 is the "b2f-c02" subcommand.
+func MainC02(args []string) int {
+	fs := flag.NewFlagSet("b2f-c02", flag.ExitOnError)
+	out := fs.String("out", "", "trace ndjson")
+	scenOut := fs.String("scenarios", "", "scenario/fault list output")
+	stride := fs.Int("stride", 7, "cut position stride for all but the first core scenario")
+	workers := fs.Int("workers", 8, "parallel sequences")
+	seqs := fs.Int("seqs", 60, "random multi-fault sequences")
+	tmp := fs.String("tmp", os.TempDir(), "scratch for directory mailboxes")
+	fs.Parse(args)
+	os.MkdirAll(*tmp, 0755)
+	TmpBase = *tmp
+	rng := rand.New(rand.NewSource(rec.Seed()))
+	cores := c02Cores(rng)
+	type item struct {
+		base   *Scenario
+		faults []*Fault
+	}
+	var items []item
+	for ci, core := range cores {
+		// clean transcript lengths
+		_, res := runClean(cloneScenario(core))
+		if res.TimedOut || res.Ret["A"] != "nil" || res.Ret["B"] != "nil" {
+			fmt.Fprintf(os.Stderr, "core scenario %d does not complete cleanly: %v\n", ci, res.Ret)
+			// still enumerate: C01 is the check that reports this
+		}
+		for _, dir := range []string{"A", "B"} {
+			L := len(res.Bytes[peerOf(dir)]) // bytes written towards dir
+			st := 1
+			if ci > 0 {
+				st = *stride
+			}
+			off := 0
+			if st > 1 {
+				off = rng.Intn(st)
+			}
+			for k := off; k <= L; k += st {
+				items = append(items, item{core, []*Fault{{Kind: "cut", Dir: dir, At: k, WriteErr: (k/st)%2 == 0, DropRev: (k/st)%4 < 2}}})
+			}
+			// always include the last bytes of the transcript in that direction (confirmation window)
+			for k := L - 12; k <= L; k++ {
+				if k >= 0 && st > 1 {
+					items = append(items, item{core, []*Fault{{Kind: "cut", Dir: dir, At: k, WriteErr: k%2 == 0, DropRev: k%3 == 0}}})
+				}
+			}
+		}
+		// storage failure at every inbound message index, on either side
+		for _, side := range []string{"A", "B"} {
+			for i := 1; i <= len(core.Msgs[peerOf(side)]); i++ {
+				items = append(items, item{core, []*Fault{{Kind: "storefail", Dir: side, At: i}}})
+			}
+		}
+		// sequences: (cut, cut, clean), (storefail, cut, clean)
+		for i := 0; i < *seqs/len(cores); i++ {
+			var fl []*Fault
+			for j := 0; j < 2+rng.Intn(2); j++ {
+				dir := []string{"A", "B"}[rng.Intn(2)]
+				L := len(res.Bytes[peerOf(dir)])
+				if rng.Intn(4) == 0 && len(core.Msgs[peerOf(dir)]) > 0 {
+					fl = append(fl, &Fault{Kind: "storefail", Dir: dir, At: 1 + rng.Intn(len(core.Msgs[peerOf(dir)]))})
+				} else {
+					fl = append(fl, &Fault{Kind: "cut", Dir: dir, At: rng.Intn(L + 1), WriteErr: rng.Intn(2) == 0, DropRev: rng.Intn(2) == 0})
+				}
+			}
+			items = append(items, item{core, fl})
+		}
+	}
+	type outT struct {
+		evs  []rec.Event
+		hung bool
+	}
+	results := make([]outT, len(items))
+	var wg sync.WaitGroup
+	ch := make(chan int)
+	for w := 0; w < *workers; w++ {
+		wg.Add(1)
+		go func() {
+			defer wg.Done()
+			for i := range ch {
+				b := cloneScenario(items[i].base)
+				b.ID = i + 1
+				evs, hung := runSequence(b, items[i].faults)
+				results[i] = outT{evs, hung}
+			}
+		}()
+	}
+	for i := range items {
+		ch <- i
+	}
+	close(ch)
+	wg.Wait()
+	w, err := rec.NewWriter(*out)
+	if err != nil {
+		fmt.Fprintln(os.Stderr, err)
+		return 2
+	}
+	defer w.Close()
+	var sw *rec.Writer
+	if *scenOut != "" {
+		sw, _ = rec.NewWriter(*scenOut)
+		defer sw.Close()
+	}
+	sessions, nontrivial := 0, 0
+	keys := map[string]bool{}
+	for i, it := range items {
+		w.Write(map[string]interface{}{"item": i + 1}, results[i].evs)
+		sessions += len(it.faults) + 1
+		fb, _ := json.Marshal(it.faults)
+		k := it.base.AbstractKey() + string(fb)
+		if !keys[k] && movedMessages(results[i].evs) > 0 {
+			nontrivial++
+		}
+		keys[k] = true
+		if sw != nil {
+			sw.Write(map[string]interface{}{"core": it.base, "faults": it.faults}, nil)
+		}
+	}
+	fmt.Printf("{\"traces\":%d,\"sessions\":%d,\"distinct\":%d,\"nontrivial\":%d,\"cores\":%d}\n", len(items), sessions, len(keys), nontrivial, len(cores))
+	return 0
+}
+
+// ---------------------------------------------------------------------------------------------
+// C04: in-transit alteration of the SOH..EOT byte range of a transfer.
+
+// applyAlter applies the fault's alteration to a whole byte stream (offline), as the link does online.
+func applyAlter(f *Fault, stream []byte) []byte {
+	fn := makeAlter(f)
+	var out []byte
+	for i, b := range stream {
+		out = append(out, fn(i, b)...)
+	}
+	return out
+}
+
+// checksHold lexes the altered stream from the start of the transfer with the independent lexer and reports whether
+// every integrity check of the protocol still holds for it (header structure and length, offset, block sizes,
+// 8-bit sum, declared compressed size, payload CRC-16 and declared uncompressed size).
+func checksHold(altered []byte, start int, csize, size int, gzip bool) bool {
+	var first *Unit
+	lx := NewLexer(func(u Unit) {
+		if first == nil {
+			u := u
+			first = &u
+		}
+	})
+	lx.ExpectFrames(1)
+	if start > len(altered) {
+		return false
+	}
+	lx.Feed(altered[start:])
+	if first == nil || first.Kind != "Frame" {
+		return false
+	}
+	f := first.F
+	ok := f["hdrStruct"].(bool) && f["sumOK"].(bool) && f["offset"].(int) == 0 && f["nbytes"].(int) == csize
+	if !gzip {
+		ok = ok && f["crcOK"].(bool) && f["usize"].(int) == size
+	}
+	return ok
+}
+
+// MainC04 is the "b2f-c04" subcommand.
+func MainC04(args []string) int {
+	fs := flag.NewFlagSet("b2f-c04", flag.ExitOnError)
+	out := fs.String("out", "", "trace ndjson")
+	scenOut := fs.String("scenarios", "", "fault list output")
+	stride := fs.Int("stride", 3, "stride for insertions and for the larger messages")
+	pairs := fs.Int("pairs", 300, "sum-compensating pairs per message")
+	workers := fs.Int("workers", 8, "parallel sessions")
+	fs.Parse(args)
+	rng := rand.New(rand.NewSource(rec.Seed()))
+	type item struct {
+		base  *Scenario
+		fault *Fault
+		holds bool
+		class string
+	}
+	var items []item
+	shapes := []MsgSpec{
+		{MID: "TINY00000001", Prec: 3, Size: "tiny", Policy: "dedup"},
+		{MID: "ONECHUNK0002", Prec: 3, Size: "small", Policy: "dedup", NonASCII: true},
+		{MID: "MULTI0000003", Prec: 2, Size: "medium", Policy: "dedup"},
+		{MID: "ATTACH000004", Prec: 3, Size: "small", Att: 2, Policy: "dedup"},
+	}
+	gz := os.Getenv("GZIP_EXPERIMENT") == "1"
+	for si, shape := range shapes {
+		base := &Scenario{ID: si + 1, Master: []string{"A", "B"}[si%2], Msgs: map[string][]MsgSpec{"A": {shape}}, Batched: map[string]bool{},
+			Sched: "free", Seg: "all", Seed: rng.Int63()}
+		_, res := runClean(cloneScenario(base))
+		stream := res.Bytes["A"]
+		// locate the transfer in A's byte stream with the lexer
+		var frame *Unit
+		var props []Unit
+		lx := NewLexer(func(u Unit) {
+			if u.Kind == "Frame" {
+				u := u
+				frame = &u
+			}
+			if u.Kind == "Prop" {
+				props = append(props, u)
+			}
+		})
+		// feed line by line; expect one frame after the proposal block
+		idx := bytesIndexFrame(stream)
+		if idx < 0 || len(props) != 0 {
+			fmt.Fprintln(os.Stderr, "cannot locate the transfer in the clean transcript")
+			return 2
+		}
+		lx.Feed(stream[:idx])
+		lx.ExpectFrames(1)
+		lx.Feed(stream[idx:])
+		if frame == nil || len(props) != 1 {
+			fmt.Fprintln(os.Stderr, "clean transcript does not lex")
+			return 2
+		}
+		a, b := idx, idx+len(frame.Raw)
+		csize, size := props[0].F["csize"].(int), props[0].F["size"].(int)
+		hl := int(stream[a+1])
+		dataStart := a + 2 + hl
+		add := func(f *Fault, class string) {
+			f.Kind, f.Dir = "alter", "B"
+			alt := applyAlter(f, stream)
+			items = append(items, item{base, f, checksHold(alt, a, csize, size, gz), class})
+		}
+		st := 1
+		if b-a > 400 {
+			st = *stride
+		}
+		for off := a; off < b; off += st {
+			o := off
+			if st > 1 {
+				o = off + rng.Intn(st)
+				if o >= b {
+					o = b - 1
+				}
+			}
+			add(&Fault{AltKind: "sub", At: o, Val: []int{0x01, 0x80, 0xff, 0x10, 0x02}[rng.Intn(5)]}, "sub")
+			add(&Fault{AltKind: "del", At: o}, "del")
+			if (off-a)%(*stride) == 0 {
+				add(&Fault{AltKind: "ins", At: o, Val: rng.Intn(256)}, "ins")
+			}
+		}
+		// always the structural bytes: SOH, length, the NULs, first STX and its length, EOT and the sum
+		for _, o := range []int{a, a + 1, dataStart - 1, dataStart, dataStart + 1, b - 2, b - 1} {
+			for _, v := range []int{0x01, 0x80, 0xff} {
+				add(&Fault{AltKind: "sub", At: o, Val: v}, "sub-struct")
+			}
+		}
+		// sum-compensating pairs inside block data: adjacent and distant positions
+		var dataPos []int
+		pos := dataStart
+		for pos < b-2 {
+			n := int(stream[pos+1])
+			if n == 0 {
+				n = 256
+			}
+			for k := 0; k < n; k++ {
+				dataPos = append(dataPos, pos+2+k)
+			}
+			pos += 2 + n
+		}
+		for i := 0; i < *pairs && len(dataPos) > 1; i++ {
+			p1 := rng.Intn(len(dataPos) - 1)
+			p2 := p1 + 1
+			if i%2 == 1 {
+				p2 = rng.Intn(len(dataPos))
+				if p2 == p1 {
+					p2 = (p1 + 1) % len(dataPos)
+				}
+			}
+			d := 1 + rng.Intn(255)
+			add(&Fault{AltKind: "pair", At: dataPos[p1], At2: dataPos[p2], Delta: d}, "pair")
+		}
+	}
+	type outT struct{ evs []rec.Event }
+	results := make([]outT, len(items))
+	var wg sync.WaitGroup
+	ch := make(chan int)
+	for w := 0; w < *workers; w++ {
+		wg.Add(1)
+		go func() {
+			defer wg.Done()
+			for i := range ch {
+				it := items[i]
+				r := &Recorder{}
+				base := cloneScenario(it.base)
+				base.ID = i + 1
+				st := Setup(base, r)
+				sc := cloneScenario(base)
+				sc.Fault = it.fault
+				r.Add(rec.Event{"op": "Altered", "m": base.Msgs["A"][0].MID, "holds": it.holds, "class": it.class})
+				res := RunSession(sc, st, r, func(l *Link) { l.StallIsCut = true }, nil)
+				if !res.TimedOut {
+					sc2 := cloneScenario(base)
+					sc2.ID = base.ID + 100000
+					RunSession(sc2, st, r, nil, nil)
+				}
+				r.Add(rec.Event{"op": "EndAll"})
+				results[i] = outT{r.Events()}
+			}
+		}()
+	}
+	for i := range items {
+		ch <- i
+	}
+	close(ch)
+	wg.Wait()
+	w, err := rec.NewWriter(*out)
+	if err != nil {
+		fmt.Fprintln(os.Stderr, err)
+		return 2
+	}
+	defer w.Close()
+	var sw *rec.Writer
+	if *scenOut != "" {
+		sw, _ = rec.NewWriter(*scenOut)
+		defer sw.Close()
+	}
+	classes := map[string]int{}
+	holds := 0
+	keys := map[string]bool{}
+	for i, it := range items {
+		w.Write(map[string]interface{}{"item": i + 1}, results[i].evs)
+		classes[it.class]++
+		if it.holds {
+			holds++
+		}
+		fb, _ := json.Marshal(it.fault)
+		keys[it.base.Msgs["A"][0].MID+string(fb)] = true
+		if sw != nil {
+			sw.Write(map[string]interface{}{"msg": it.base.Msgs["A"][0], "fault": it.fault, "checks_hold": it.holds, "class": it.class}, nil)
+		}
+	}
+	cb, _ := json.Marshal(classes)
+	fmt.Printf("{\"traces\":%d,\"sessions\":%d,\"distinct\":%d,\"checks_still_hold\":%d,\"classes\":%s}\n", len(items), 2*len(items), len(keys), holds, cb)
+	return 0
+}
+
+// bytesIndexFrame finds the first SOH that follows a CR in the stream (the start of the first transfer).
+func bytesIndexFrame(stream []byte) int {
+	for i := 1; i < len(stream); i++ {
+		if stream[i] == 1 && stream[i-1] == '\r' {
+			return i
+		}
+	}
+	return -1
 }
